@@ -1,0 +1,45 @@
+//go:build verif
+
+package writecache
+
+import (
+	"time"
+
+	oid "github.com/nspcc-dev/neofs-sdk-go/object/id"
+)
+
+// VerifFlushTickWithin is VerifFlushTick with a bound on how long a batch may
+// wait for a flush worker to take it: a cache whose flush workers are not
+// running (opened again after Close without Init) is left as it is after
+// `wait`. Reports whether every batch has been taken by a worker.
+func VerifFlushTickWithin(c Cache, wait time.Duration) bool {
+	cc := c.(*cache)
+	for addr := range cc.objCounters.Map() {
+		if _, loaded := cc.flushObjs.LoadOrStore(addr, struct{}{}); loaded {
+			continue
+		}
+		select {
+		case cc.flushCh <- []oid.Address{addr}:
+		case <-time.After(wait):
+			cc.flushObjs.Delete(addr)
+			return false
+		}
+	}
+	VerifWaitFlushed(c)
+	return true
+}
+
+// VerifWaitFlushed waits until no object is marked as being flushed and no
+// flush operation holds the mode lock.
+func VerifWaitFlushed(c Cache) {
+	cc := c.(*cache)
+	for range 10000 {
+		busy := false
+		cc.flushObjs.Range(func(_, _ any) bool { busy = true; return false })
+		if !busy {
+			break
+		}
+		time.Sleep(time.Millisecond)
+	}
+	VerifQuiesce(c)
+}
